@@ -13,6 +13,9 @@ Three sources of verdicts, all against the PROPERTY model:
                  substrings of heap and inline atoms, checkpoints in LIFO order) validated by TraceAlloc
   sweep (C14)    every byte string of length <= 2 (quick: boundary subset) in both representations and
                  boundary integers through all integer constructors, validated by TraceAlloc
+  scen (C12,C13) deterministic scenarios: the interpreter's GC pattern (garbage >= 1024 bytes after a transparent
+                 checkpoint, maybe_restore_with_node keeping an old node / a substring of old bytes / new small,
+                 48-, 49-byte atoms / a pair ...) and every allocating call at distance 0..3 from each cap
 Design level: TLC checks that AllocMech refines Alloc with SubstrOfInlineAtomCopies = FALSE, and finds
 the F5 counterexample with TRUE (expected; reported in the evidence).
 
@@ -344,6 +347,10 @@ def check(prop, tier, seed):
             for s in range(shards)]
     if prop == "C14":
         jobs.append(("sweep", ["sweep", "--mode", "quick" if tier == "quick" else "full"]))
+    else:
+        # deterministic scenarios: the GC pattern (>= 1024 bytes of garbage after a transparent checkpoint, then
+        # maybe_restore_with_node on every kind of kept value) and every call at distance 0..3 from each cap
+        jobs.append(("scen", ["scen", "--seed", str(seed)]))
     distinct_events = record_and_validate(out, prop, hb, work, jobs, counts)
 
     out.traces = counts["cases"] + counts["trace_lines"]
